@@ -410,6 +410,7 @@ def GrammarOK (a : Ast) (keysA keysF : List String := []) : Bool :=
   let p := processed a
   let hasStar := p.any Item.isStar
   starLast p
+  && bitSize a % 8 == 0            -- "Length must be a multiple of 8"
   && noDupSyms keysA keysF p
   && ovlFits (prefixWidths (starWidth a) a.items 0)
   && (match a.size with
